@@ -175,6 +175,65 @@ func genC16(g *Gen) {
 			c16run(g, "all 16384 subsets, random order", set, types, shuffled(inputs3)[:20])
 		}
 	}
+	// every ordered pair of symbols: register the first, read every input, register the second, read every input again
+	for i := 0; i < n; i++ {
+		for j := 0; j < n; j++ {
+			if i == j {
+				continue
+			}
+			st := generic.NewGenericSymbolState()
+			seg := []Ev{{"op": "new"}}
+			for _, s := range [][]rune{uni[i], uni[j]} {
+				seg = append(seg, Ev{"op": "add", "sym": cpsR(s), "type": typeOf(s)})
+				st.Add(string(s), typeOf(s))
+				for _, in := range inputs3 {
+					seg = append(seg, Ev{"op": "scan", "input": cpsR(in)})
+					sc := sio.NewStringScanner(string(in))
+					for guard := 0; sc.Peek() != -1 && guard < len(in)+2; guard++ {
+						st.NextToken(sc, nil)
+						seg = append(seg, Ev{"op": "next"})
+					}
+				}
+			}
+			g.Run("ordered pairs of registrations with reads in between", seg)
+		}
+	}
+	// a long symbol first, then one of its proper prefixes, reads before and after (nodes deep in the tree whose ancestors become symbols later)
+	var ab4 [][]rune
+	allStrings([]rune{'a', 'b'}, 4, func(s []rune) {
+		if len(s) > 0 {
+			ab4 = append(ab4, s)
+		}
+	})
+	for _, long := range ab4 {
+		if len(long) != 4 {
+			continue
+		}
+		for pl := 1; pl <= 3; pl++ {
+			for _, first := range []bool{true, false} {
+				st := generic.NewGenericSymbolState()
+				seg := []Ev{{"op": "new"}}
+				order := [][]rune{long, long[:pl]}
+				if !first {
+					order = [][]rune{long[:pl], long}
+				}
+				for _, s := range order {
+					ty := 200 + len(s)
+					seg = append(seg, Ev{"op": "add", "sym": cpsR(s), "type": ty})
+					st.Add(string(s), ty)
+					for _, in := range ab4 {
+						seg = append(seg, Ev{"op": "scan", "input": cpsR(in)})
+						sc := sio.NewStringScanner(string(in))
+						for guard := 0; sc.Peek() != -1 && guard < len(in)+2; guard++ {
+							st.NextToken(sc, nil)
+							seg = append(seg, Ev{"op": "next"})
+						}
+					}
+				}
+				g.Run("a long symbol and one of its prefixes, reads in between", seg)
+			}
+		}
+	}
 	// registration interleaved with reading (a table that is extended after it has been used)
 	m3 := g.Pick(400, 6000)
 	for x := 0; x < m3; x++ {
